@@ -62,7 +62,59 @@ def inject(rng, t, labels, hidden_ok=True, keypool=None):
     return n
 
 
+def gen_scalar_doc(rng):
+    """An output document that is a bare marker string (the whole document, a $value, a selected scalar)."""
+    m = rng.choice(['$required', '$required', '$foo', '$mtach', '$replace', '$delete', '$match', '$output', '$r'])
+    shape = rng.choice(['whole', 'value', 'selected', 'second-doc', 'value-layered', 'control'])
+    if shape == 'whole':
+        docs = [[m]]
+    elif shape == 'value':
+        docs = [[{'$value': m}]]
+    elif shape == 'selected':
+        docs = [[{'a': 1, 'sel': {'$output': True, '$value': m}}]]
+    elif shape == 'second-doc':
+        docs = [[{'name': 'first'}], [m]]
+    elif shape == 'value-layered':
+        docs = [[{'$value': m}, {'$match': None, 'name': 'second'}]]
+    else:
+        m = rng.choice(CONTROLS + ['plain', '$$required'])
+        docs = [[rng.choice([m, {'$value': m}])]]
+    return {'mode': 'scalar-doc', 'chains': docs, 'marker': m, 'shape': shape, 'layers': [], 'labels': ['mode:scalar-doc', 'scalar-doc:' + shape]}
+
+
+def check_scalar_doc(ctx, case, res):
+    ops = []
+    for ci, chain in enumerate(case['chains']):
+        for li, l in enumerate(chain):
+            ops.append({'op': 'merge_doc', 'id': 'C%dL%d' % (ci, li), 'parents': ['C%dL%d' % (ci, li - 1)] if li else [], 'data': l})
+    ops += [{'op': 'output', 'format': 'json'}, {'op': 'output', 'format': 'yaml'}]
+    resp = ctx.call(ops, res)
+    if resp is None:
+        return res.violate('crash', 'worker died', case=case)
+    rs = resp['results']
+    for r in rs:
+        if r.get('panic'):
+            return res.violate('crash', 'panic: ' + r['panic'][:300], case=case)
+    res.nontrivial = True
+    failed = any(r['err'] is not None for r in rs[:-1])
+    if case['shape'] == 'control':
+        if failed:
+            return res.violate('expect', 'a scalar document that is not a marker was rejected: %s' % next(r['err'] for r in rs if r['err']), case=case)
+        res.ev('clean_success')
+        return res
+    for o in rs[-2:]:
+        if o['err'] is None and case['marker'] in out_bytes(o).decode():
+            return res.violate('scan', 'successful output contains the unresolved marker %s as a scalar document' % case['marker'], case=case, out=out_bytes(o).decode())
+    if not failed:
+        return res.violate('expect', 'a marker is an output document by itself but evaluation succeeded', case=case, out=out_bytes(rs[-2]).decode())
+    res.ev('marker_rejected')
+    res.labels.add('outcome:marker-rejected')
+    return res
+
+
 def gen_case(rng, i, tier):
+    if rng.random() < 0.03:
+        return gen_scalar_doc(rng)
     labels = set()
     nl = rng.choice([1, 2, 2, 3])
     mode = rng.choice(['marker', 'marker', 'required', 'hidden', 'encode', 'selected-elsewhere'])
@@ -121,7 +173,9 @@ def gen_case(rng, i, tier):
     if mode == 'hidden':
         # wrap a subtree with markers under $output:false in the base
         sub = gen.tree(rng, 2, 3, root='map')
-        inject(rng, sub, labels)
+        clean_hidden = rng.random() < 0.25
+        if not clean_hidden:
+            inject(rng, sub, labels)
         sub['$output'] = False
         if rng.random() < 0.35:
             inner = gen.tree(rng, 1, 2, root='map')
@@ -130,7 +184,12 @@ def gen_case(rng, i, tier):
             inner['$output'] = True
             sub[rng.choice(['f', 'g'])] = inner if rng.random() < 0.7 else [inner]
             labels.add('marker:selected-inside-hidden')
-        base[rng.choice(['h', 'i'])] = sub if rng.random() < 0.7 else [sub, 1]
+        if clean_hidden:
+            # nothing invalid anywhere: the hidden part sits below a list entry / deeper in maps and must simply disappear
+            base[rng.choice(['h', 'i'])] = rng.choice([[{'w': sub}, 1], {'w': [{'x': sub, 'keep': 1}]}, {'w': {'x': sub}}, [[{'w': sub}]]])
+            labels.add('marker:clean-hidden-below-list-entry')
+        else:
+            base[rng.choice(['h', 'i'])] = sub if rng.random() < 0.7 else [sub, 1]
         labels.add('marker:hidden')
     if mode == 'encode':
         sub = gen.tree(rng, 1, 3, root='map')
@@ -184,6 +243,8 @@ def fixed_cases(tier):
 
 def shrink(case):
     from ..shrink import shrink_tree
+    if case.get('mode') == 'scalar-doc':
+        return
     layers = case['layers']
     if len(layers) > 1:
         yield dict(case, layers=layers[:-1])
@@ -269,6 +330,16 @@ def expectation(layers, policy):
     return e
 
 
+def without_output_markers(v, entry=False):
+    """The tree without its well-formed $output markers (map key with a boolean, list entry {$output: bool})."""
+    if isinstance(v, dict):
+        return {k: without_output_markers(x, False) for k, x in v.items() if not (k == '$output' and isinstance(x, bool) and not entry)}
+    if isinstance(v, list):
+        # a map with other keys next to $output that is a direct list entry is not a well-formed marker (not judged): it stays
+        return [without_output_markers(x, True) for x in v if not (isinstance(x, dict) and len(x) == 1 and isinstance(x.get('$output'), bool))]
+    return v
+
+
 def judge(e, real, res):
     """None if the observed run matches expectation e, else (monitor, message)."""
     failed = real['failed']
@@ -288,7 +359,7 @@ def judge(e, real, res):
             res.ev('required_error_class_ok')
         return None
     if failed:
-        if has_marker(e['ev']):
+        if has_marker(without_output_markers(e['ev'])):
             # markers only in hidden parts: the statement does not demand success
             res.labels.add('outcome:hidden-marker-failed')
             res.ev('hidden_marker_failed')
@@ -306,6 +377,8 @@ def judge(e, real, res):
 def check_case(ctx, case):
     res = Result()
     res.labels.update(case.get('labels', []))
+    if case.get('mode') == 'scalar-doc':
+        return check_scalar_doc(ctx, case, res)
     layers = case['layers']
     res.nontrivial = any(l.startswith('marker:') for l in case.get('labels', [])) or 'fixed' in case.get('labels', [])
     if any(isinstance(l, dict) and '$match' in l for l in layers):
